@@ -179,8 +179,8 @@ class Interp:
             r = (type(left) is type(right) or {type(left), type(right)} <= {tuple} or isinstance(left, type(right)) or isinstance(right, type(left))) \
                 and list(left) == list(right)
             return r if isinstance(op, ast.Eq) else not r
-        if isinstance(op, ast.Eq) and (left is right):
-            return True
+        if isinstance(op, (ast.Eq, ast.NotEq)) and (left is right or (isinstance(left, Sym) and isinstance(right, Sym) and left == right)):
+            return isinstance(op, ast.Eq)  # one and the same term denotes one value
         if isinstance(op, (ast.Eq, ast.NotEq)) and isinstance(left, (Sym, Obj)) and isinstance(right, (Sym, Obj)):
             if isinstance(left, Obj) or isinstance(right, Obj):
                 r = left is right
@@ -813,6 +813,10 @@ class Interp:
         if isinstance(fv, Sym) and fv.op == "builtin":
             return self.builtin(fv.args[0], args, kwargs, node)
         if isinstance(fv, Sym) and fv.op == "bound":
+            if fv.args[0] == "sort" and isinstance(fv.args[1].v, list):
+                lst = fv.args[1].v
+                lst[:] = self.sort(list(lst), kwargs.get("key"), node, kwargs.get("reverse", False))
+                return None
             return self.container_method(fv.args[1].v, fv.args[0], args, node)
         if isinstance(fv, Class):
             return self.construct(fv, args, kwargs, node)
@@ -875,6 +879,18 @@ class Interp:
             return all(self.truth(x, node) for x in self.iterate(args[0], node))
         if name in ("min", "max"):
             seq = self.iterate(args[0], node) if len(args) == 1 else list(args)
+            if not seq:
+                if "default" in kwargs:
+                    return kwargs["default"]
+                self.on_raise(Sym("exc", "ValueError", f"{name}() arg is an empty sequence"), node)
+            if kwargs.get("key") is not None:
+                keys = [self.call(kwargs["key"], [x], {}, node, None) for x in seq]
+                best = 0
+                for i in range(1, len(seq)):
+                    c = self.compare(ast.Lt() if name == "min" else ast.Gt(), keys[i], keys[best], node)
+                    if self.truth(c, node):
+                        best = i
+                return seq[best]
             return self.minmax(name, seq, node)
         if name == "bool":
             return self.truth(args[0], node)
@@ -883,7 +899,7 @@ class Interp:
         if name == "id":
             return Sym("id", args[0] if isinstance(args[0], Sym) else id(args[0]))
         if name == "sorted":
-            return self.sort(self.iterate(args[0], node), kwargs.get("key"), node)
+            return self.sort(self.iterate(args[0], node), kwargs.get("key"), node, kwargs.get("reverse", False))
         if name == "map":
             return [self.call(args[0], [x], {}, node, None) for x in self.iterate(args[1], node)]
         if name == "print":
@@ -894,13 +910,30 @@ class Interp:
             return self.attr(args[0], args[1], node, None)
         raise AnalysisError(f"builtin {name} not in vocabulary")
 
-    def sort(self, seq, key, node):
+    def sort(self, seq, key, node, reverse=False):
+        """Stable sort; keys are compared with the interpreter's own `<` (plain values natively,
+        symbolic times through the rule's order oracle; an undecidable pair raises Undecided)."""
+        if reverse not in (True, False):
+            raise AnalysisError("sort(reverse=<symbolic>)")
+        seq = list(seq)
         if key is None and all(_plain(x) and x is not None for x in seq):
             try:
-                return sorted(seq)
+                return sorted(seq, reverse=reverse)
             except TypeError:
                 pass
-        raise AnalysisError("sorting symbolic values not in vocabulary")
+        keys = [x if key is None else self.call(key, [x], {}, node, None) for x in seq]
+        idx = list(range(len(seq)))
+        out = []
+        for i in idx:  # insertion sort: stable, O(n^2) on the tiny lists of the abstract scenarios
+            pos = len(out)
+            while pos > 0:
+                a, b = keys[i], keys[out[pos - 1]]
+                lt = self.compare(ast.Gt() if reverse else ast.Lt(), a, b, node)
+                if not self.truth(lt, node):
+                    break
+                pos -= 1
+            out.insert(pos, i)
+        return [seq[i] for i in out]
 
     def sym_len(self, v, node):
         raise AnalysisError(f"len of {v!r}")
